@@ -5,6 +5,7 @@ import (
 	"errors"
 	"fmt"
 	"io"
+	"net"
 	"net/http"
 	"strings"
 	"testing"
@@ -24,18 +25,19 @@ func TestMain(m *testing.M) { stats.Main(m) }
 // ---------------------------------------------------------------------------------------
 
 type Attempt struct {
-	Kind    string  `json:"kind"`              // neterr | reject | stream
-	Stream  stats.B `json:"stream,omitempty"`  // body of a stream attempt
-	Chunks  []int   `json:"chunks,omitempty"`  // chunk sizes (cyclic); empty: one read
-	End     string  `json:"end,omitempty"`     // eof | err | cancel | deadline (how the body ends after Stream)
-	DelayMs int     `json:"delayms,omitempty"` // virtual delay before the transport answers
-	ReadMs  int     `json:"readms,omitempty"`  // virtual delay before each body read
-	HangMs  int     `json:"hangms,omitempty"`  // cancel: how long the last read blocks before the harness cancels
-	Filler  int     `json:"filler,omitempty"`  // number of 32-byte id-less filler events appended to Stream (so that one connection carries more than the scanner's buffer)
-	Status  int     `json:"status,omitempty"`  // stream: response status (0 = 200)
-	CT      string  `json:"ct,omitempty"`      // stream: Content-Type header ("" = text/event-stream, "none" = header absent); judged by DefaultValidator only
-	NoRead  bool    `json:"noread,omitempty"`  // neterr: the transport fails before reading the request body (a dial failure); it closes the body, as RoundTrippers must
-	ErrKind string  `json:"errkind,omitempty"` // neterr / End=err: "" plain | deadline | canceled: an error that LOOKS like a context error but does not come from the request's context (e.g. a dial or client timeout)
+	Kind       string  `json:"kind"`                 // neterr | reject | stream
+	Stream     stats.B `json:"stream,omitempty"`     // body of a stream attempt
+	Chunks     []int   `json:"chunks,omitempty"`     // chunk sizes (cyclic); empty: one read
+	End        string  `json:"end,omitempty"`        // eof | err | cancel | deadline (how the body ends after Stream)
+	DelayMs    int     `json:"delayms,omitempty"`    // virtual delay before the transport answers
+	ReadMs     int     `json:"readms,omitempty"`     // virtual delay before each body read
+	HangMs     int     `json:"hangms,omitempty"`     // cancel: how long the last read blocks before the harness cancels
+	Filler     int     `json:"filler,omitempty"`     // number of 32-byte id-less filler events appended to Stream (so that one connection carries more than the scanner's buffer)
+	NoBodyResp bool    `json:"nobodyresp,omitempty"` // stream with an empty body ending in EOF: the response body is http.NoBody, as the real transport gives for Content-Length: 0
+	Status     int     `json:"status,omitempty"`     // stream: response status (0 = 200)
+	CT         string  `json:"ct,omitempty"`         // stream: Content-Type header ("" = text/event-stream, "none" = header absent); judged by DefaultValidator only
+	NoRead     bool    `json:"noread,omitempty"`     // neterr: the transport fails before reading the request body (a dial failure); it closes the body, as RoundTrippers must
+	ErrKind    string  `json:"errkind,omitempty"`    // neterr / End=err: "" plain | deadline | canceled: an error that LOOKS like a context error but does not come from the request's context (e.g. a dial or client timeout)
 }
 
 type BackoffCfg struct {
@@ -159,12 +161,24 @@ var (
 	errBoom    = errors.New("harness: body read failure")
 	errGetBody = errors.New("harness: GetBody failure")
 	// errors of the transport's own making that wrap the context sentinels while the request's context is alive
-	errNetDeadline  = fmt.Errorf("harness: transport timeout: %w", context.DeadlineExceeded)
-	errNetCanceled  = fmt.Errorf("harness: transport aborted: %w", context.Canceled)
-	errBoomDeadline = fmt.Errorf("harness: body read timeout: %w", context.DeadlineExceeded)
-	errBoomCanceled = fmt.Errorf("harness: body read aborted: %w", context.Canceled)
-	errBoomEOF      = fmt.Errorf("harness: connection reset by peer: %w", io.EOF)
+	// (the two timeouts are what net/http reports for Client.Timeout and for transport timeouts: a
+	// net.Error with Timeout() true that also matches context.DeadlineExceeded)
+	errNetDeadline  error = &timeoutError{"harness: transport timeout: context deadline exceeded (Client.Timeout exceeded while awaiting headers)"}
+	errNetCanceled        = fmt.Errorf("harness: transport aborted: %w", context.Canceled)
+	errBoomDeadline error = &timeoutError{"harness: body read timeout: context deadline exceeded (Client.Timeout or context cancellation while reading body)"}
+	errBoomCanceled       = fmt.Errorf("harness: body read aborted: %w", context.Canceled)
+	errBoomEOF            = fmt.Errorf("harness: connection reset by peer: %w", io.EOF)
 )
+
+// timeoutError mimics net/http's timeout errors.
+type timeoutError struct{ msg string }
+
+func (e *timeoutError) Error() string     { return e.msg }
+func (e *timeoutError) Timeout() bool     { return true }
+func (e *timeoutError) Temporary() bool   { return true }
+func (e *timeoutError) Is(err error) bool { return err == context.DeadlineExceeded }
+
+var _ net.Error = (*timeoutError)(nil)
 
 // body is the complete response body of a stream attempt.
 func (a Attempt) body() string {
@@ -426,6 +440,9 @@ func run(t *testing.T, sc Script, setup func(conn *sse.Connection, tr *Trace)) (
 			}
 			body := &scriptedBody{tr: tr, a: a, ctx: r.Context(), cancel: cancel, t0: t0, ctxErr: sc.ctxErrOf}
 			resp := &http.Response{StatusCode: 200, Header: http.Header{"Content-Type": {"text/event-stream"}}, Body: body, Request: r}
+			if a.NoBodyResp && a.body() == "" && (a.End == "eof" || a.End == "") {
+				resp.Body, resp.ContentLength = http.NoBody, 0
+			}
 			if a.Status != 0 {
 				resp.StatusCode = a.Status
 			}
